@@ -31,6 +31,21 @@ import (
 
 func init() { Registry["C02"] = runC02 }
 
+// c02Held is the result of the previous Format call, kept (with a private copy) across the next one:
+// what Format returned belongs to the caller and must not change when Format is called again.
+var c02Held struct {
+	out, cp []byte
+	id      string
+}
+
+func c02Hold(c *mon.Ctx, id string, out []byte) {
+	if c02Held.out != nil && !bytes.Equal(c02Held.out, c02Held.cp) {
+		c.Violation("earlier-format-result-changed-by-a-later-call", id, map[string]any{"earlier-case": c02Held.id,
+			"was": c02Trunc(c02Held.cp), "is-now": c02Trunc(c02Held.out)})
+	}
+	c02Held.out, c02Held.cp, c02Held.id = out, append([]byte(nil), out...), id
+}
+
 // c02Flatten lists, in print order, the statement kinds, tokens and comment texts of a
 // syntax tree. It is attachment-agnostic on purpose: `x ( ) // c` hands the comment to the
 // block, the formatted `x (\n) // c` hands it to the `)`, both print it in the same place.
@@ -259,6 +274,7 @@ func c02Syntax(c *mon.Ctx, id, origin string, in []byte) (accepted bool) {
 		flat1 := c02Flatten(f) // before Format
 		c02Observe(c, f, in)
 		out := modfile.Format(f)
+		c02Hold(c, id, out)
 		f2, err := modfile.VerifParse("go.mod", out)
 		if err != nil {
 			c.Violation("format-output-rejected", id, map[string]any{"in": c02Trunc(in), "out": c02Trunc(out), "err": err.Error()})
@@ -444,6 +460,7 @@ func c02Directive(c *mon.Ctx, id, kind string, work bool, in []byte, fixed bool,
 			c.Violation("file-format-error", id, map[string]any{"in": c02Trunc(in), "err": ferr.Error()})
 			return
 		}
+		c02Hold(c, id, out)
 		if outB := modfile.Format(p1.syntax); !bytes.Equal(out, outB) {
 			c.Violation("File.Format-vs-Format", id, map[string]any{"in": c02Trunc(in), "File.Format": c02Trunc(out), "Format(Syntax)": c02Trunc(outB)})
 			return
